@@ -25,7 +25,9 @@ type Case struct {
 	Route int     `json:"route"`
 }
 
-var layouts = []geom.Layout{geom.XY, geom.XYZ, geom.XYM, geom.XYZM, geom.Layout(5), geom.Layout(6), geom.Layout(8)}
+// NoLayout (stride 0) comes last: its only well-formed geometries are empty
+// (what the GeoJSON decoder returns for "coordinates":[]).
+var layouts = []geom.Layout{geom.XY, geom.XYZ, geom.XYM, geom.XYZM, geom.Layout(5), geom.Layout(6), geom.Layout(8), geom.NoLayout}
 
 func closeRing(r [][]model.F) [][]model.F {
 	if len(r) == 0 {
@@ -40,6 +42,9 @@ func genCase(t *rapid.T) Case {
 	}).Draw(t, "classes")
 	o := gen.TreeOpts{Layouts: layouts, Kinds: kinds, Floats: classes, MaxParts: 4, MaxPts: 6, PEmpty: 25, LongPct: 1, LongMax: 300}
 	g := gen.Tree(t, o)
+	if g.Layout == int(geom.NoLayout) {
+		g.C0, g.C1, g.C2, g.C3 = nil, nil, nil, nil
+	}
 	// optional large common offset on X,Y for small shapes
 	if classes == gen.SmallInt && rapid.IntRange(0, 2).Draw(t, "offset") == 0 {
 		ox := float64(rapid.Int64Range(-1<<40, 1<<40).Draw(t, "ox"))
